@@ -3,6 +3,7 @@ package cluster
 import (
 	"context"
 	"fmt"
+	"sort"
 	"strings"
 	"sync"
 	"testing"
@@ -50,7 +51,7 @@ func genOp(t *rapid.T, s Setup, kinds []string, withFault bool) Op {
 		op.Deploy.Files = 0
 	case "setnode":
 		op.SetNode = genSetNode(t, s)
-	case "noderesource":
+	case "noderesource", "fixnode":
 		op.Name = rapid.SampledFrom(s.Nodes).Draw(t, "nrNode").Name
 	}
 	if withFault && vt.Chance(t, "withFault", 45) {
@@ -59,7 +60,7 @@ func genOp(t *rapid.T, s Setup, kinds []string, withFault bool) Op {
 	return op
 }
 
-var c10Kinds = []string{"create", "create", "create", "remove", "dissociate", "realloc", "realloc", "replace", "setnode", "noderesource"}
+var c10Kinds = []string{"create", "create", "create", "remove", "dissociate", "realloc", "realloc", "replace", "setnode", "noderesource", "fixnode"}
 
 func genC10(t *rapid.T) HistoryCase {
 	c := HistoryCase{Setup: genSetup(t, 2)}
@@ -68,11 +69,11 @@ func genC10(t *rapid.T) HistoryCase {
 	first := genOp(t, c.Setup, []string{"create"}, false)
 	c.Steps = append(c.Steps, HOp{Op: &first})
 	for i := 1; i < n; i++ {
-		if vt.Chance(t, "batch", 15) {
+		if vt.Chance(t, "batch", 25) {
 			k := rapid.IntRange(2, 3).Draw(t, "batchSize")
 			var b []Op
 			for j := 0; j < k; j++ {
-				b = append(b, genOp(t, c.Setup, []string{"create", "remove", "realloc", "dissociate"}, false))
+				b = append(b, genOp(t, c.Setup, []string{"create", "remove", "remove", "realloc", "dissociate", "fixnode", "fixnode"}, false))
 			}
 			c.Steps = append(c.Steps, HOp{Batch: b})
 			continue
@@ -135,6 +136,10 @@ func runC10(x *vt.Ctx, c HistoryCase) *vt.Finding {
 			desc = fmt.Sprintf("op=%s fault=%s", h.Op.Kind, faultKey(*h.Op))
 			x.Logf("step %d %s -> %s", i, jsonStr(h.Op), jsonStr(out))
 		} else {
+			if batchCause(h.Batch) == "create||fixnode" && vt.Mode() == "search" && vt.Exclude("C10", "batch=create||fixnode:usage!=sum") {
+				x.Label("excluded-known-finding")
+				continue
+			}
 			batches++
 			x.Label("batch")
 			var wg sync.WaitGroup
@@ -147,11 +152,7 @@ func runC10(x *vt.Ctx, c HistoryCase) *vt.Finding {
 				}(op)
 			}
 			wg.Wait()
-			kinds := []string{}
-			for _, op := range h.Batch {
-				kinds = append(kinds, op.Kind)
-			}
-			desc = "batch=" + strings.Join(kinds, "+")
+			desc = "batch=" + batchCause(h.Batch)
 		}
 		if !settle(w) {
 			return vt.Failf(desc+":not-quiescent", "step %d: world did not become quiescent within 30s", i)
@@ -193,4 +194,22 @@ func failedBeforeInjection(h []world.Step) bool {
 		}
 	}
 	return false
+}
+
+// batchCause names a parallel batch by its operation kinds (sorted, unique); a repair running next
+// to a deployment is one known root cause whatever else runs alongside.
+func batchCause(ops []Op) string {
+	has := map[string]bool{}
+	for _, o := range ops {
+		has[o.Kind] = true
+	}
+	if has["create"] && has["fixnode"] {
+		return "create||fixnode"
+	}
+	var ks []string
+	for k := range has {
+		ks = append(ks, k)
+	}
+	sort.Strings(ks)
+	return strings.Join(ks, "+")
 }
